@@ -212,6 +212,9 @@ def checkTrace (hist : List Ev) : Option String :=
       match sinks.find? (fun p => p.2 = g ∧ p.1 ∉ closed) with
       | some p => some s!"downstream {g} shut down while its sink {p.1} was still open (not flushed)"
       | none => go sinks closed (shut ++ [g]) r
+    | .started g :: r =>
+      -- the new downstream takes over what the old one saved: it must not start before the old one was shut down
+      if g > 0 ∧ (g - 1) ∉ shut then some s!"downstream {g} started before downstream {g - 1} was shut down" else go sinks closed shut r
     | _ :: r => go sinks closed shut r
   go [] [] [] hist
 
